@@ -483,6 +483,9 @@ fn search(r: &mut Rng, n: usize) {
         }
     }
     dyadic_rows_case(&mut rep, &mut ev, "↻", &num(&[1, 2, 2], &[1., 0., 0., 1.]), &num(&[1, 2, 2], &[1., 2., 3., 4.]));
+    // regression: each with three arguments and an empty argument panicked before commit 751fe5f
+    each3_case(&mut rep, &mut ev, "(++)", &num(&[0], &[]), &num(&[], &[1.]), &num(&[], &[2.]));
+    each3_case(&mut rep, &mut ev, "(⊂⊂)", &num(&[2, 0], &[]), &num(&[], &[1.]), &num(&[2, 0], &[]));
     let mut i = 0;
     while i < n {
         i += 1;
@@ -502,6 +505,19 @@ fn search(r: &mut Rng, n: usize) {
             let f = *r.pick(MON);
             let x = garr(r, 2, -1, 1, 2);
             mapping_case(&mut rep, &mut ev, "∵", f, 1, &x);
+            if r.chance(1, 3) {
+                let x = garr(r, 2, -1, 1, 1);
+                let y = num(&[], &[r.range(0, 4) as f64]);
+                let z = if r.chance(1, 2) {
+                    num(&[], &[r.range(0, 4) as f64])
+                } else {
+                    let sh: Vec<usize> = x.shape.iter().copied().collect();
+                    let d: Vec<f64> = (0..shape_len(&sh)).map(|_| r.range(-3, 6) as f64).collect();
+                    num(&sh, &d)
+                };
+                let f3 = *r.pick(&["(++)", "(⊂⊂)", "(⊟⊟)", "(+×)"]);
+                each3_case(&mut rep, &mut ev, f3, &x, &y, &z);
+            }
         } else if fam < 58 {
             // rows with two arguments (equal row counts, or a scalar)
             let f = *r.pick(DY);
@@ -572,6 +588,45 @@ fn mapping_case(rep: &mut Rep, ev: &mut usize, m: &str, f: &str, k: usize, x: &V
         if !agrees(&hand, &imp) {
             let class = classify(&hand, &imp, x, k, f, m);
             rep.report(m, &class, f, vname, &src.replace('\n', " ; "), &[x], &show_h(&hand), &show_r(&imp));
+        }
+    }
+}
+
+/// ∵F x y z (three arguments): scalars are repeated, arrays must share the shape of x
+fn each3_case(rep: &mut Rep, ev: &mut usize, f: &str, x: &Value, y: &Value, z: &Value) {
+    let n = x.shape.elements();
+    let flat = |v: &Value| -> Vec<Value> {
+        if v.rank() == 0 {
+            return vec![v.clone(); n];
+        }
+        let mut w = v.clone();
+        w.shape = [n].as_slice().into();
+        w.rows().collect()
+    };
+    let hand = if n == 0 {
+        let sh: Vec<usize> = x.shape.iter().copied().collect();
+        let zi = sh.iter().position(|&d| d == 0).unwrap();
+        H::Lead(sh[..=zi].to_vec())
+    } else {
+        let (xs, ys, zs) = (flat(x), flat(y), flat(z));
+        let rs: Vec<H> = (0..n).map(|i| call1("", f, &[xs[i].clone(), ys[i].clone(), zs[i].clone()], ev)).collect();
+        match assemble(rs, n) {
+            H::V(mut v) => {
+                let mut sh: Vec<usize> = x.shape.iter().copied().collect();
+                sh.extend(v.shape.iter().skip(1).copied());
+                v.shape = sh.as_slice().into();
+                H::V(v)
+            }
+            h => h,
+        }
+    };
+    for (prelude, op, vname) in wrap_variants(f) {
+        let src = format!("{prelude}∵{op}");
+        let imp = run1(&src, &[x.clone(), y.clone(), z.clone()], ev);
+        rep.count("∵3");
+        if !agrees(&hand, &imp) {
+            let class = classify(&hand, &imp, x, 1, f, "∵3");
+            rep.report("∵3", &class, f, vname, &src.replace('\n', " ; "), &[x, y, z], &show_h(&hand), &show_r(&imp));
         }
     }
 }
